@@ -241,6 +241,31 @@ func TestC02Edits(t *testing.T) {
 		run(sn, es, longSizes, sn%2 == 0, []string{"c2s", "s2c"}[sn%2])
 		K = 4
 	}
+	// a whole earlier record (header and body) put in front of a later one,
+	// at every distance class within and across a key generation: if the
+	// nonce that reaches the AEAD ever repeats under one key (a counter
+	// truncated to 8 or 16 bits, a rotation that keeps the key) the old
+	// record decrypts at the new position
+	dists := []int{1, 2, 3, 5, 8, 16, 32, 64, 100, 127, 128, 129, 200, 250, 255, 256,
+		257, 300, 384, 400, 499, 500, 501, 504}
+	if thorough {
+		dists = dists[:0]
+		for dd := 1; dd <= 504; dd++ {
+			dists = append(dists, dd)
+		}
+	}
+	for k, dd := range dists {
+		from := 0
+		if k%3 == 1 && dd+17 <= 504 {
+			from = 17
+		}
+		sn++
+		K = 505
+		run(sn, []edit{{E: "replay", I: 2*(from+dd) + 1, J: 2*from + 1},
+			{E: "replay", I: 2*(from+dd) + 2, J: 2*from + 2}},
+			longSizes, sn%2 == 0, []string{"c2s", "s2c"}[sn%2])
+		K = 4
+	}
 	// every single-bit flip of every chunk of a short session (thorough: all
 	// bits of all chunks; quick: every bit of one header and one body, and a
 	// stride over the rest)
